@@ -38,6 +38,12 @@ const (
 	// (B is still in round 1), A's round-1 broadcast is delivered to B a second time; then C's
 	// broadcast is released. Everything else is delivered in eager random order.
 	modeRedeliverTargeted
+	// modeConcurrentTargeted: at every receiver B != C, the round-R broadcast of a laggard sender C is
+	// kept back until the round-R broadcasts of all other senders were handled by B, each of them delivered
+	// as a CONCURRENT group (original + 1..3 byte-identical copies released together from separate
+	// goroutines, so that B's handlers for the same broadcast overlap, as libp2p streams do). A
+	// duplicate that slipped through a non-atomic filter would be counted in place of C. Both rounds.
+	modeConcurrentTargeted
 	numModes
 )
 
@@ -49,10 +55,11 @@ const (
 	dupAfterLater // after a later-round message of the same sender was delivered to the same receiver
 	dupLate       // at random later points and while the network is idle
 	dupMixed      // all of the above
+	dupConcurrent // every broadcast message is delivered as a concurrent group (see deliver)
 	numDupProfiles
 )
 
-var dupNames = [...]string{"none", "immediate", "after-later-round", "late", "mixed"}
+var dupNames = [...]string{"none", "immediate", "after-later-round", "late", "mixed", "concurrent"}
 
 // targetedHoldCap bounds how long the targeted mode keeps C's broadcast back (pacing only; a
 // one-way message held back trips no real-time timeout of the code under test).
@@ -76,7 +83,7 @@ type redoItem struct {
 const maxHold = 800 * time.Millisecond
 
 var modeNames = [...]string{"eager-random", "eager-lifo", "batch-shuffle", "batch-reverse", "laggard-sender",
-	"laggard-receiver", "class-priority", "receiver-priority", "sender-priority", "targeted-redelivery"}
+	"laggard-receiver", "class-priority", "receiver-priority", "sender-priority", "targeted-redelivery", "targeted-concurrent"}
 
 type delivery struct {
 	Seq   int64  `json:"seq"`
@@ -109,6 +116,11 @@ type sched struct {
 	tgtPhase   int // 0 = C's broadcast to B is kept back, 1 = released
 	tgtSince   time.Time
 	dupDone    atomic.Int64
+	ctick      atomic.Int64    // logical clock of handler entry/exit (overlap measurement)
+	msgDone    map[[3]int]bool // {to, round, from}: that broadcast message was handled (scheduler goroutine only)
+	p2pDone    map[[2]int]bool // {to, from}: the FROST round-1 p2p share was handled
+	burst      int             // copies per concurrent group at the targeted receiver (0: 1..3 as everywhere)
+	nNodes     int
 
 	sent atomic.Int64
 	done atomic.Int64
@@ -129,6 +141,8 @@ type sched struct {
 	tgtCompleted int
 	tgtAbandoned int
 	tgtWhy       string
+	concGroups   int // concurrent groups delivered
+	concPairs    int // pairs of copies of one message whose handler executions overlapped
 
 	// logical clock over sends and completed deliveries (pedersen pubkey-channel analysis)
 	tick        int64
@@ -147,7 +161,7 @@ func newSched(net *fakenet.Net, ids []peer.ID, rng *rand.Rand, mode int, patienc
 		net: net, idx: map[peer.ID]int{}, rng: rng, mode: mode, patience: patience,
 		prio: map[string]int{}, wake: make(chan struct{}, 1), stop: make(chan struct{}), fin: make(chan struct{}),
 		classes: map[string]int{}, dupProfile: dupProfile, dupBudget: dupBudget, dupAll: dupAll, dupUsed: map[int]int{},
-		classCache: map[*fakenet.Envelope]string{}, redeliv: map[string]int{}, tgtA: -1,
+		classCache: map[*fakenet.Envelope]string{}, redeliv: map[string]int{}, tgtA: -1, msgDone: map[[3]int]bool{}, p2pDone: map[[2]int]bool{}, nNodes: len(ids),
 		r1LastSend: map[int]int64{}, r1Sends: map[int]int{}, r2Sends: map[int]int{}, r1Delivered: map[int][]int64{}, r1DupsTo: map[int]int{},
 	}
 	// targeted mode: receiver B and laggard sender C (distinct); A is whoever is fast
@@ -260,6 +274,29 @@ func (s *sched) heldBack(e *fakenet.Envelope) bool {
 	switch s.mode {
 	case modeRedeliverTargeted:
 		return s.tgtPhase == 0 && s.idx[e.From] == s.tgtC && s.idx[e.To] == s.tgtB && isRound1Msg(s.class(e))
+	case modeConcurrentTargeted:
+		to := s.idx[e.To]
+		if s.tgtPhase == 0 && to != s.tgtC && s.class(e) == "msg:round1/cast" && (!s.p2pDone[[2]int{to, s.idx[e.From]}] || !s.p2pDone[[2]int{to, s.tgtC}]) {
+			// FROST: at B the round-1 shamir shares of the sender and of C go before the sender's
+			// round-1 cast, so that B's round-1 loop ends the moment it has counted n casts (every
+			// sender emits its casts and shares back to back; C's shares are never held)
+			return true
+		}
+		if s.tgtPhase != 0 || s.idx[e.From] != s.tgtC {
+			return false
+		}
+		cl := s.class(e)
+		if !strings.HasPrefix(cl, "msg:") || roundOf(cl) == 0 {
+			return false
+		}
+		// held until every other sender's broadcast of that round was handled by B
+		for x := 0; x < s.nNodes; x++ {
+			if x != to && x != s.tgtC && !s.msgDone[[3]int{to, roundOf(cl), x}] {
+				return true
+			}
+		}
+
+		return false
 	case modeLaggardSender:
 		return s.idx[e.From] == s.victim
 	case modeLaggardRecv:
@@ -324,8 +361,10 @@ func (s *sched) run() {
 		// messages without turning into a multi-second network outage on a loaded machine.
 		var oldest *fakenet.Envelope
 		var oldestAge time.Duration
+		heldSeen := false
 		for _, e := range pend {
-			if s.mode == modeRedeliverTargeted && s.heldBack(e) {
+			if (s.mode == modeRedeliverTargeted || s.mode == modeConcurrentTargeted) && s.heldBack(e) {
+				heldSeen = true
 				// C's one-way broadcast to B: holding it trips no timeout; own, longer cap
 				if s.tgtSince.IsZero() {
 					s.tgtSince = time.Now()
@@ -340,6 +379,9 @@ func (s *sched) run() {
 					oldest, oldestAge = e, age
 				}
 			}
+		}
+		if !heldSeen {
+			s.tgtSince = time.Time{} // the hold cap runs per held broadcast (one per round)
 		}
 		if oldest != nil && oldestAge > maxHold {
 			s.mu.Lock()
@@ -357,7 +399,7 @@ func (s *sched) run() {
 				elig = append(elig, e)
 			}
 		}
-		if len(elig) == 0 && s.mode == modeRedeliverTargeted {
+		if len(elig) == 0 && (s.mode == modeRedeliverTargeted || s.mode == modeConcurrentTargeted) {
 			if len(held) > 0 && settled(10*time.Second) {
 				s.abandonTarget("nothing-moved") // nothing else moves and no faster sender showed up
 			} else {
@@ -386,7 +428,7 @@ func (s *sched) run() {
 		}
 
 		switch s.mode {
-		case modeEagerRandom, modeLaggardSender, modeLaggardRecv:
+		case modeEagerRandom, modeLaggardSender, modeLaggardRecv, modeConcurrentTargeted:
 			s.deliver(elig[s.rng.Intn(len(elig))])
 		case modeRedeliverTargeted:
 			e := elig[s.rng.Intn(len(elig))]
@@ -513,18 +555,104 @@ func (s *sched) deliver(e *fakenet.Envelope) {
 	ch := make(chan struct{})
 	r1 := isRound1Msg(class)
 	toIdx := s.idx[e.To]
-	go func() {
-		s.net.Deliver(e)
-		if r1 {
-			s.mu.Lock()
-			s.tick++
-			s.r1Delivered[toIdx] = append(s.r1Delivered[toIdx], s.tick)
-			s.mu.Unlock()
+	fromIdx := s.idx[e.From]
+	isMsg := !e.Duplex && strings.HasPrefix(class, "msg:")
+	if s.mode == modeConcurrentTargeted && s.tgtPhase == 0 && isMsg && fromIdx == s.tgtC && rd > 0 {
+		s.mu.Lock()
+		s.tgtCompleted++ // C's broadcast of this round goes only now: all others were handled at B as concurrent groups
+		s.mu.Unlock()
+	}
+	// Concurrent group: the original and 1..3 copies are handed to the receiver's handler from
+	// separate goroutines released together, so the handler executions for one broadcast overlap.
+	copies := 0
+	if isMsg && (s.dupProfile == dupConcurrent || (s.mode == modeConcurrentTargeted && toIdx != s.tgtC && fromIdx != s.tgtC)) {
+		copies = 1 + s.rng.Intn(3)
+		room := s.dupBudget - 1 - s.dupUsed[toIdx]
+		if s.mode == modeConcurrentTargeted && toIdx != s.tgtC && fromIdx != s.tgtC && s.burst > 0 {
+			// The window of a non-atomic "seen?" check is a few instructions wide while the copies
+			// reach it spread over the jitter of the signature verification that precedes it: at the
+			// targeted receiver a whole burst of copies is released so that some pair gets close.
+			copies = s.burst + s.rng.Intn(s.burst)
+			room = copies // FROST filters repeats before queueing: no budget needed (burst is 0 for pedersen)
 		}
-		s.done.Add(1)
-		close(ch)
-		s.poke()
-	}()
+		if copies > room {
+			copies = room
+		}
+		if copies < 0 {
+			copies = 0
+		}
+	}
+	if copies > 0 {
+		s.dupUsed[toIdx] += copies
+		envs := []*fakenet.Envelope{e}
+		s.mu.Lock()
+		for i := 0; i < copies; i++ {
+			envs = append(envs, e.Clone())
+			s.dupStarted++
+			s.order = append(s.order, delivery{Seq: e.Seq, From: fromIdx, To: toIdx, Class: class + "+dup(concurrent)"})
+			s.redeliv["concurrent"]++
+		}
+		s.mu.Unlock()
+		start := make(chan struct{})
+		type interval struct{ in, out int64 }
+		ivs := make([]interval, len(envs))
+		var wg sync.WaitGroup
+		for i, cp := range envs {
+			wg.Add(1)
+			go func() {
+				defer wg.Done()
+				<-start
+				in := s.ctick.Add(1)
+				s.net.Deliver(cp)
+				ivs[i] = interval{in, s.ctick.Add(1)}
+				if r1 {
+					s.mu.Lock()
+					s.tick++
+					s.r1Delivered[toIdx] = append(s.r1Delivered[toIdx], s.tick)
+					if i > 0 {
+						s.r1DupsTo[toIdx]++
+					}
+					s.mu.Unlock()
+				}
+				if i == 0 {
+					s.done.Add(1)
+				} else {
+					s.dupDone.Add(1)
+				}
+				s.poke()
+			}()
+		}
+		go func() {
+			wg.Wait()
+			pairs := 0
+			for i := range ivs {
+				for j := i + 1; j < len(ivs); j++ {
+					if ivs[i].in < ivs[j].out && ivs[j].in < ivs[i].out {
+						pairs++
+					}
+				}
+			}
+			s.mu.Lock()
+			s.concGroups++
+			s.concPairs += pairs
+			s.mu.Unlock()
+			close(ch)
+		}()
+		close(start)
+	} else {
+		go func() {
+			s.net.Deliver(e)
+			if r1 {
+				s.mu.Lock()
+				s.tick++
+				s.r1Delivered[toIdx] = append(s.r1Delivered[toIdx], s.tick)
+				s.mu.Unlock()
+			}
+			s.done.Add(1)
+			close(ch)
+			s.poke()
+		}()
+	}
 	t := time.NewTimer(s.patience)
 	select {
 	case <-ch:
@@ -537,7 +665,13 @@ func (s *sched) deliver(e *fakenet.Envelope) {
 	t.Stop()
 
 	// ---- re-delivery bookkeeping and triggers ----
-	from, to := s.idx[e.From], s.idx[e.To]
+	from, to := fromIdx, toIdx
+	if isMsg && rd > 0 {
+		s.msgDone[[3]int{to, rd, from}] = true
+	}
+	if class == "p2p:round1/p2p" {
+		s.p2pDone[[2]int{to, from}] = true
+	}
 	mixed := s.dupProfile == dupMixed
 	if (s.dupProfile == dupAfterLater || mixed) && rd > 1 {
 		for _, r := range s.recs {
@@ -695,6 +829,8 @@ type schedStats struct {
 	TgtCompleted int            `json:"targeted_pattern_completed"`
 	TgtAbandoned int            `json:"targeted_pattern_abandoned"`
 	TgtWhy       string         `json:"targeted_pattern_abandoned_why,omitempty"`
+	ConcGroups   int            `json:"concurrent_duplicate_groups"`
+	ConcPairs    int            `json:"concurrent_duplicate_pairs"`
 }
 
 func (s *sched) stats() schedStats {
@@ -715,7 +851,7 @@ func (s *sched) stats() schedStats {
 	return schedStats{Mode: modeNames[s.mode], Victim: s.victim, Sent: s.sent.Load(), Delivered: s.done.Load(),
 		Inversions: s.inversions, RoundOverlap: s.roundOverlap, LeftInFlight: s.leftInFlight, AgedOut: s.agedOut, MaxPool: s.maxPool, Classes: cl,
 		DupProfile: dupNames[s.dupProfile], Redeliveries: rd, RedelivTotal: total, TargetB: s.tgtB, TargetC: s.tgtC,
-		TgtCompleted: s.tgtCompleted, TgtAbandoned: s.tgtAbandoned, TgtWhy: s.tgtWhy}
+		TgtCompleted: s.tgtCompleted, TgtAbandoned: s.tgtAbandoned, TgtWhy: s.tgtWhy, ConcGroups: s.concGroups, ConcPairs: s.concPairs}
 }
 
 // orderHash identifies the schedule: the sequence of (from, to, class) deliveries.
